@@ -1,6 +1,7 @@
 """C02 — multilinear products equal their definition in every representation.
 
 Decided (structural necessary conditions on the kernels of tensor / sptensor / ktensor / ttensor / sumtensor):
+  GRAMDIR ttensor.innerprod (Tucker x Tucker): the Gram matrices applied to one tensor's core are (other's factor)^T (its own factor)
   VIDX    at every site that asks tt_dimscheck for a multiplicand index (ttv / ttm of the four classes), the multiplicand
           container is subscripted only by vidx[j], shapes / factors / modes only by dims[j], and one statement uses
           the same j for both — a container indexed by the loop counter or by dims[j] pairs multiplicands with the
@@ -568,11 +569,82 @@ def paired_dims(prog: Program, res: Result) -> None:
             res.ok("PAIRED", short, desc, prog.loc(fi), nontrivial=False)
 
 
+def gram_direction(prog: Program, res: Result) -> None:
+    """<X, Y> of two Tucker tensors: W_n = U_n^T V_n (ranks of X by ranks of Y) is applied to the core of Y, J = H x_n W_n, and the result is
+    <G, J>.  The factor that is transposed must belong to the tensor whose core is NOT multiplied - otherwise every W_n is the transpose of
+    what it should be (invisible for <X, X>, where W_n is symmetric)."""
+    fi = prog.func("ttensor.ttensor.innerprod")
+    me, you = fi.params()[0], fi.params()[1]
+    desc = "Tucker x Tucker inner product: the Gram matrices applied to one core are (other tensor's factor)^T (this core's factor)"
+
+    def owner(e: ast.AST, binds: Dict[str, str]) -> Optional[str]:
+        e = fi.resolve(e)
+        if isinstance(e, ast.Name):
+            return binds.get(e.id)
+        t = ast.unparse(e)
+        for who in (me, you):
+            if t.startswith(f"{who}.factor_matrices"):
+                return who
+        return None
+    verdicts = []
+    for c in ast.walk(fi.node):
+        if not (isinstance(c, ast.Call) and isinstance(c.func, ast.Attribute) and c.func.attr == "ttm" and c.args
+                and isinstance(c.func.value, ast.Attribute) and c.func.value.attr == "core" and isinstance(c.func.value.value, ast.Name)
+                and c.func.value.value.id in (me, you)):
+            continue
+        core_of = c.func.value.value.id
+        w = fi.resolve(c.args[0])
+        if not isinstance(w, ast.ListComp) or len(w.generators) != 1:
+            # accumulate loops are comprehensions after normalisation; anything else is not read
+            verdicts.append(("UNDEC", c, "the list of Gram matrices is not a comprehension"))
+            continue
+        g = w.generators[0]
+        binds: Dict[str, str] = {}
+        if isinstance(g.iter, ast.Call) and (dotted(g.iter.func) or "") == "zip" and isinstance(g.target, ast.Tuple) and len(g.target.elts) == len(g.iter.args):
+            for t_, a_ in zip(g.target.elts, g.iter.args):
+                o = owner(a_, {})
+                if isinstance(t_, ast.Name) and o:
+                    binds[t_.id] = o
+        elt = w.elt
+        left = right = None
+        if isinstance(elt, ast.Call) and isinstance(elt.func, ast.Attribute) and elt.func.attr == "dot" and len(elt.args) == 1:
+            left, right = elt.func.value, elt.args[0]
+        elif isinstance(elt, ast.BinOp) and isinstance(elt.op, ast.MatMult):
+            left, right = elt.left, elt.right
+        tl = left
+        transposed_left = False
+        if isinstance(tl, ast.Call) and isinstance(tl.func, ast.Attribute) and tl.func.attr == "transpose" and not tl.args:
+            tl, transposed_left = tl.func.value, True
+        elif isinstance(tl, ast.Attribute) and tl.attr == "T":
+            tl, transposed_left = tl.value, True
+        if left is None or not transposed_left:
+            verdicts.append(("UNDEC", c, "Gram matrix is not of the form A.T @ B"))
+            continue
+        ol, orr = owner(tl, binds), owner(right, binds)
+        if ol is None or orr is None:
+            verdicts.append(("UNDEC", c, "factor owners not recognised"))
+        elif orr == core_of and ol != core_of:
+            verdicts.append(("OK", c, f"({ol} factor)^T ({orr} factor) applied to the core of {core_of}"))
+        else:
+            verdicts.append(("BAD", c, f"({ol} factor)^T ({orr} factor) is applied to the core of `{core_of}`: each Gram matrix is the transpose of the "
+                                       f"one that maps the ranks of `{core_of}` to the ranks of the other tensor - wrong for two different Tucker "
+                                       "tensors (and a shape error when their ranks differ)"))
+    if not verdicts:
+        res.undecided("GRAMDIR", fi.short, desc, prog.loc(fi), "no core.ttm(W) found")
+    for v, c, why in verdicts:
+        if v == "OK":
+            res.ok("GRAMDIR", fi.short, desc, prog.loc(fi, c), why)
+        elif v == "BAD":
+            res.bad("GRAMDIR", fi.short, desc, prog.loc(fi, c), why)
+        else:
+            res.undecided("GRAMDIR", fi.short, desc, prog.loc(fi, c), why)
+
+
 def check(prog: Program, res: Result, tier: str) -> None:
     res.explanation = __doc__.split("\n\n", 1)[1]
     res.assumptions = ["tt_dimscheck contract (C17): dims sorted, vidx[j] = position of the multiplicand that belongs to dims[j]",
                        "khatrirao(reverse=True) over an ascending factor list matches the F-order unfolding (C17 KRAX)"]
-    res.floors = {"VIDX": 6, "KR": 9, "EO-1": 21, "WEIGHTS": 6, "FOLD": 4, "REP": 18, "DTYPE": 1, "WDEG": 30, "AGG": 2, "MOVE": 1, "PAIRED": 2}
+    res.floors = {"VIDX": 6, "KR": 9, "EO-1": 21, "WEIGHTS": 6, "FOLD": 4, "REP": 18, "DTYPE": 1, "WDEG": 30, "AGG": 2, "MOVE": 1, "PAIRED": 2, "GRAMDIR": 1}
     for f in DENSE_KERNELS + SPARSE_KERNELS:
         prog.func(f)
     vidx(prog, res)
@@ -584,6 +656,7 @@ def check(prog: Program, res: Result, tier: str) -> None:
     agg_contract(prog, res)
     move_sync(prog, res)
     paired_dims(prog, res)
+    gram_direction(prog, res)
     dtype_rule(prog, res)
     from ..report import Result as _R
     probe = _R("C02")
